@@ -455,7 +455,7 @@ def _dec_judge(i, pkt, events, sec, prev):
                 want = "22.262.1" if (cls, typ) == (2, 1) else sec["S%d" % (cls if cls in (0, 1) else 0)]["asp"]
                 if e["asp"] != want:
                     if fut9: raise _Quirk(SIG_FUTASP + ": aspect ratio packet of the future class announced as current aspect ratio (" + where + ")")
-                    if typ in (1, 3) and e["asp"] == prev["S0"]["asp"]:
+                    if typ in (1, 3) and cls in (0, 1) and e["asp"] == prev["S%d" % cls]["asp"]:
                         raise _Quirk(SIG_FLUSHASP + ": flush_prog_info announces the aspect ratio it has just erased (" + where + ")")
                     return "prog-info-event: %s ASPECT %s, stored %s" % (where, e["asp"], want)
             elif k == "net":
